@@ -77,6 +77,7 @@ def parse_set(text: str) -> set[int] | None:
 
 class C08(Check):
     PROP = "C08"
+    CRASH_ORACLE = "C08.sound"
     WORLD = "X"
     RULE = ("each run = one generated namespace read by the real front end. For every message / request / response type: (O1) the "
             "offset set of every field (recursively through nested composites and fixed arrays, composing base offsets the way a "
